@@ -3,9 +3,11 @@ sys.path.insert(0, os.path.join(os.path.dirname(__file__), '..', 'lib'))
 import std
 
 SPEC = {
-    'prop_files': ['theories/Properties/C01.v'],
-    'coq_targets': ['theories/Properties/C01.vo', 'theories/C01/Corr.vo'],
-    'closure_dirs': ['theories/C01', 'theories/Generic', 'theories/Wire/Item.v', 'theories/Base/Outcome.v', 'theories/Gen/Consts.v'],
+    'prop_files': ['theories/Properties/C01.v', 'theories/Properties/C01_compose.v'],
+    'coq_targets': ['theories/Properties/C01.vo', 'theories/Properties/C01_compose.vo', 'theories/C01/Corr.vo'],
+    'closure_dirs': ['theories/C01', 'theories/Generic', 'theories/Wire/Item.v', 'theories/Base/Outcome.v', 'theories/Gen/Consts.v',
+                     'theories/Base/Word.v', 'theories/Base/FBits.v', 'theories/Gen/Leaf.v',
+                     'theories/Wire/Simple.v', 'theories/Wire/SimpleProofs.v'],
     'harness': 'c01',
     'args': {
         'quick': ['-model', 600, '-oracle', 4000],
